@@ -1502,6 +1502,94 @@ Definition x_map_extents (fuel : nat) (fiemap : N -> fiemap_ans) : mx_result := 
 }
 
 
+/// operations::tree_walker: the per-entry dispatch table, the position and condition of the no-clobber check,
+/// the iterator chain of the walk and the statements that compute `from`, `meta`, `path`, `target` (as normalised text)
+fn tree_walker_shape(src: &Src) -> R<String> {
+    let (_, block) = find_fn(src, "tree_walker")?;
+    let norm = |t: &dyn quote::ToTokens| quote::ToTokens::to_token_stream(t).to_string().replace(' ', "");
+    // outer: for source in sources { .. }
+    let outer = block.stmts.iter().find_map(|s| if let Stmt::Expr(Expr::ForLoop(f), _) = s { Some(f) } else { None }).ok_or("tree_walker: no `for source in sources`")?;
+    if norm(&outer.pat) != "source" || norm(&outer.expr) != "sources" { return Err("tree_walker: outer loop header".into()); }
+    let mut per_source: Vec<String> = vec![];
+    let mut inner = None;
+    for st in &outer.body.stmts {
+        let t = norm(st);
+        if t.starts_with("debug!") || t.starts_with("info!") { continue; }
+        if let Stmt::Expr(Expr::ForLoop(f), _) = st { inner = Some(f); continue; }
+        per_source.push(t);
+    }
+    let inner = inner.ok_or("tree_walker: no inner walk loop")?;
+    // iterator chain
+    let mut chain: Vec<String> = vec![];
+    let mut e: &Expr = &inner.expr;
+    loop {
+        match e {
+            Expr::MethodCall(m) => { chain.push(format!("{}({})", m.method, m.args.iter().map(|a| norm(a)).collect::<Vec<_>>().join(","))); e = &m.receiver; }
+            other => { chain.push(norm(other)); break; }
+        }
+    }
+    chain.reverse();
+    // body: prelude lets, the no-clobber `if`, `let ft`, the match
+    let mut prelude: Vec<String> = vec![];
+    let mut noclobber: Option<(String, bool, usize)> = None;
+    let mut dispatch: Option<ExprMatch> = None;
+    let mut idx = 0;
+    for st in &inner.body.stmts {
+        let t = norm(st);
+        if t.starts_with("debug!") || t.starts_with("info!") { continue; }
+        idx += 1;
+        match st {
+            Stmt::Local(_) => prelude.push(t),
+            Stmt::Expr(Expr::If(i), _) => {
+                let body = norm(&i.then_branch);
+                noclobber = Some((norm(&i.cond), body.contains("returnErr("), idx));
+            }
+            Stmt::Expr(Expr::Match(m), _) => { dispatch = Some(m.clone()); if noclobber.is_none() { return Err("tree_walker: dispatch before the no-clobber check".into()); } }
+            _ => return Err(format!("tree_walker: unexpected statement {}", t)),
+        }
+    }
+    let m = dispatch.ok_or("tree_walker: no dispatch match")?;
+    let (nc_cond, nc_returns, _) = noclobber.ok_or("tree_walker: no no-clobber check")?;
+    let ftcode = |n: &str| -> R<u64> { Ok(match n { "File" => 0, "Dir" => 1, "Symlink" => 2, "Socket" => 3, "Fifo" => 4, "Char" => 5, "Block" => 6, "Other" => 7, _ => return Err(format!("file type {}", n)) }) };
+    let mut table: Vec<(u64, Vec<u64>)> = vec![];
+    for arm in &m.arms {
+        let p = norm(&arm.pat);
+        let mut kinds = vec![];
+        for alt in p.split('|') { kinds.push(ftcode(alt.rsplit("::").next().unwrap())?); }
+        // actions in source order
+        struct V { out: Vec<(usize, u64)> }
+        impl<'ast> Visit<'ast> for V {
+            fn visit_expr_call(&mut self, c: &'ast syn::ExprCall) {
+                let n = quote::ToTokens::to_token_stream(&c.func).to_string().replace(' ', "");
+                let pos = c.span().start().line * 1000 + c.span().start().column;
+                match n.as_str() {
+                    "StatusUpdate::Size" => self.out.push((pos, 0)), "Operation::Copy" => self.out.push((pos, 1)), "Operation::Link" => self.out.push((pos, 2)),
+                    "create_dir_all" => self.out.push((pos, 3)), "Operation::Special" => self.out.push((pos, 4)),
+                    "XcpError::UnknownFileType" => self.out.push((pos, 5)), _ => {}
+                }
+                syn::visit::visit_expr_call(self, c)
+            }
+        }
+        let mut v = V { out: vec![] };
+        v.visit_expr(&arm.body);
+        v.out.sort();
+        let acts: Vec<u64> = v.out.iter().map(|x| x.1).collect();
+        for k in kinds { table.push((k, acts.clone())); }
+    }
+    table.sort();
+    let strs = |v: &Vec<String>| format!("[{}]", v.iter().map(|x| format!("\"{}\"", x.replace('"', "\"\""))).collect::<Vec<_>>().join(";\n   "));
+    let tab = format!("[{}]", table.iter().map(|(k, a)| format!("({}, {})", k, nlist(a))).collect::<Vec<_>>().join("; "));
+    Ok(format!("(* {}:{}  tree_walker *)\n\
+Definition x_walker_dispatch : list (N * list N) := {}.\n\
+Definition x_walker_noclobber_condition : string := \"{}\".\n\
+Definition x_walker_noclobber_stops_before_dispatch : bool := {}.\n\
+Definition x_walker_iterator : list string :=\n  {}.\n\
+Definition x_walker_entry_prelude : list string :=\n  {}.\n\
+Definition x_walker_source_prelude : list string :=\n  {}.\n",
+        src.path, block.span().start().line, tab, nc_cond, nc_returns, strs(&chain), strs(&prelude), strs(&per_source)))
+}
+
+
 fn main() {
     let root = std::env::args().nth(1).unwrap_or_else(|| "/repo".to_string());
     let root = Path::new(&root);
@@ -1567,6 +1655,7 @@ fn main() {
     }
     match load(root, "libxcp/src/operations.rs") {
         Ok(src) => {
+            emit("tree_walker", tree_walker_shape(&src), &mut out);
             emit("try_reflink", try_reflink(&src), &mut out);
             emit("CopyHandle::new", call_order(&src, "new", "x_copy_new_steps",
                 &[("File::open", 20), ("metadata", 21), ("try_exists", 22), ("is_same_file", 23), ("needs_backup", 24), ("get_backup_path", 25),
